@@ -12,8 +12,18 @@
 (* One action per public call / critical section:                             *)
 (*   New(g, c)        WithContext: under the lock next' = next + 1, c gets it *)
 (*   Alias(g, c, s)   AliasContext: c gets id(s), or New if s carries none    *)
-(*   Log(g, l, a)     T/Tf/W/Wf/E/Ef/I/If, Logger.Println/Printf: exactly one *)
-(*                    line <<label, [pid][cid], message>> in ONE write        *)
+(*   Log(g, l, a, s)  T/Tf/W/Wf/E/Ef/I/If, Logger.Println/Printf: exactly one *)
+(*                    line <<label, [pid][cid], message>> in ONE write; the   *)
+(*                    message is made of the operands the caller passed: s    *)
+(*                    says how - operands written out in the call ("lit",     *)
+(*                    storage nobody else sees) or a window buf[b][1..n] of a *)
+(*                    slice the CALLER owns, `fields[:n]...`, whose backing   *)
+(*                    array has Len(buf[b]) >= n cells. The caller (and every *)
+(*                    goroutine it shares the slice with) goes on using it:   *)
+(*                    a logging call only READS its operands.                 *)
+(*   buf    caller-owned operand storage: buffer -> its cells up to capacity. *)
+(*          A cell is j when it holds what the application put into cell j,   *)
+(*          0 when it holds something the application never put there.        *)
 (* Named deviations (CONSTANT switches, FALSE = deviation):                   *)
 (*   AtomicNew   C18/cid-counter-race: New is ReadCounter ; WriteCounter,     *)
 (*               which is what an unsynchronised `gCid += 1` is               *)
@@ -21,6 +31,13 @@
 (*               writes, so another goroutine's write can fall in between     *)
 (*   ObjCid      C18/obj-cid-dropped: a line logged with an application       *)
 (*               object (Cid() int) carries '[pid]' only, as if ctx were nil  *)
+(*   OwnStorage  C18/prefix-inserted-in-place: the call builds the argument   *)
+(*               list <<prefix>> \o operands INSIDE the caller's slice when   *)
+(*               that has spare capacity (append(a, nil); copy(a[1:], a);     *)
+(*               a[0] = prefix): the line of this call is still right, the    *)
+(*               caller's cells are shifted by one, so the NEXT call with the *)
+(*               same slice - by this goroutine or any other - prints the     *)
+(*               earlier call's prefix inside a truncated message             *)
 EXTENDS Naturals, Sequences, FiniteSets, TLC
 
 CONSTANTS N,          \* worker goroutines 1..N
@@ -31,11 +48,15 @@ CONSTANTS N,          \* worker goroutines 1..N
           ArgKinds,   \* kinds of context argument Next logs with, subset of {"nil","bg","obj","ctx"}
           Pid,        \* the process id
           AtomicNew, AtomicLine, ObjCid,
+          Bufs,       \* caller-owned operand buffers that exist from the start (names)
+          Cap,        \* their capacity (cells)
+          Wins,       \* window lengths n Next passes operands with: buf[b][1..n], subset of 0..Cap
+          OwnStorage, \* TRUE: the call never writes to the caller's operands (FALSE = deviation)
           Sink(_, _)  \* how the writer's history is kept: KeepAll (the specification), or KeepLast for
                       \* long recorded traces, where only the newest write is looked at
 
-VARIABLES next, used, ctxid, origin, rd, pend, nlog, out
-vars == <<next, used, ctxid, origin, rd, pend, nlog, out>>
+VARIABLES next, used, ctxid, origin, rd, pend, nlog, out, buf
+vars == <<next, used, ctxid, origin, rd, pend, nlog, out, buf>>
 idvars == <<next, used, ctxid, origin, rd>>
 
 Procs    == 1..N
@@ -72,6 +93,17 @@ SpecPrefix(a) == CASE a.k = "nil" -> [judged |-> TRUE,  pid |-> Pid, cid |-> 0]
 (* an application object is treated as if no context had been passed.          *)
 Prefix(a) == IF a.k = "obj" /\ ~ObjCid THEN SpecPrefix(NilArg) ELSE SpecPrefix(a)
 
+(* How the operands of a logging call are passed.                             *)
+Lit       == [k |-> "lit", b |-> 0, n |-> 0]     \* written out in the call: storage of the call itself
+Win(b, n) == [k |-> "win", b |-> b, n |-> n]     \* buf[b][1..n], storage of the caller
+Pristine(c)  == [j \in 1..c |-> j]               \* a buffer as the application filled it
+Foreign      == 0
+SrcOk(s)     == s.k = "win" => (s.b \in DOMAIN buf /\ s.n \in 0..Len(buf[s.b]))
+Operands(s)  == IF s.k = "win" THEN SubSeq(buf[s.b], 1, s.n) ELSE <<>>   \* what the call reads (and prints)
+Meant(s)     == IF s.k = "win" THEN Pristine(s.n) ELSE <<>>               \* what the application passed
+\* the in-place insert of deviation C18/prefix-inserted-in-place on a slice with spare capacity
+Shifted(cells, n) == <<Foreign>> \o SubSeq(cells, 1, n) \o SubSeq(cells, n + 2, Len(cells))
+
 KeepAll(o, w)  == Append(o, w)
 KeepLast(o, w) == <<w>>
 
@@ -82,6 +114,7 @@ Init == /\ next = FirstId - 1
         /\ pend = [g \in AllProcs |-> <<>>]
         /\ nlog = [g \in AllProcs |-> 0]
         /\ out = <<>>
+        /\ buf = [b \in Bufs |-> Pristine(Cap)]
 
 (* ------------------------------ connection ids ---------------------------- *)
 NewOrigin      == [how |-> "new",   g |-> 0,   i |-> 0]
@@ -100,18 +133,18 @@ Hand(c, id) == /\ used' = used \cup {id}
 NewAtomic(g, c) == /\ rd[g] = Idle /\ pend[g] = <<>>
                    /\ next' = next + 1
                    /\ Hand(c, next')
-                   /\ UNCHANGED <<rd, pend, nlog, out>>
+                   /\ UNCHANGED <<rd, pend, nlog, out, buf>>
 
 \* deviation C18/cid-counter-race: load ...
 ReadCounter(g) == /\ rd[g] = Idle /\ pend[g] = <<>>
                   /\ rd' = [rd EXCEPT ![g] = next + 1]      \* the value it is going to store
-                  /\ UNCHANGED <<next, used, ctxid, origin, pend, nlog, out>>
+                  /\ UNCHANGED <<next, used, ctxid, origin, pend, nlog, out, buf>>
 \* ... then store, whatever happened in between
 WriteCounter(g, c) == /\ rd[g] # Idle
                       /\ next' = rd[g]
                       /\ Hand(c, rd[g])
                       /\ rd' = [rd EXCEPT ![g] = Idle]
-                      /\ UNCHANGED <<pend, nlog, out>>
+                      /\ UNCHANGED <<pend, nlog, out, buf>>
 
 New(g, c) == IF AtomicNew THEN NewAtomic(g, c)
              ELSE ReadCounter(g) \/ WriteCounter(g, c)
@@ -122,39 +155,48 @@ Alias(g, c, src) ==
   IF HasId(src)
   THEN /\ rd[g] = Idle /\ pend[g] = <<>>
        /\ Create(c, IdOf(NameOf(src)), AliasOrigin(NameOf(src)))
-       /\ UNCHANGED <<next, used, rd, pend, nlog, out>>
+       /\ UNCHANGED <<next, used, rd, pend, nlog, out, buf>>
   ELSE /\ src.k \in {"bg", "nil"}
        /\ New(g, c)
 
 (* --------------------------------- logging -------------------------------- *)
 Msg(g)  == [g |-> g, k |-> nlog[g] + 1]           \* unique per call
-Line(g, level, a) == [kind |-> "line", level |-> level, pfx |-> Prefix(a), msg |-> Msg(g), arg |-> a]
+Line(g, level, a, s) == [kind |-> "line", level |-> level, pfx |-> Prefix(a), msg |-> Msg(g), arg |-> a,
+                         src |-> s, ops |-> Operands(s)]
 HeadOf(l) == [l EXCEPT !.kind = "head"]             \* label, time, prefix - no message, no newline
 TailOf(l) == [l EXCEPT !.kind = "tail"]             \* message and newline only
 
-\* one logging call through `level` with context argument a; routed = the level's
-\* logger writes to the current writer (otherwise to the discard sink)
-LogCall(g, level, a, routed) ==
+\* Does the call put a prefix of its own before the operands?  (The deviation needs one to insert.)
+HasPrefix(a) == a.k # "bg"
+
+\* one logging call through `level` with context argument a and operands passed as s; routed =
+\* the level's logger writes to the current writer (otherwise to the discard sink).  The argument
+\* list is formatted whether or not the level is routed, so the deviation shows for discarded levels too.
+LogCall(g, level, a, s, routed) ==
   /\ rd[g] = Idle /\ pend[g] = <<>>
-  /\ ArgOk(a)
+  /\ ArgOk(a) /\ SrcOk(s)
   /\ nlog' = [nlog EXCEPT ![g] = @ + 1]
   /\ IF ~routed THEN UNCHANGED <<out, pend>>
-     ELSE IF AtomicLine THEN out' = Sink(out, Line(g, level, a)) /\ UNCHANGED pend
-     ELSE /\ out' = Sink(out, HeadOf(Line(g, level, a)))          \* deviation C18/split-line
-          /\ pend' = [pend EXCEPT ![g] = <<TailOf(Line(g, level, a))>>]
+     ELSE IF AtomicLine THEN out' = Sink(out, Line(g, level, a, s)) /\ UNCHANGED pend
+     ELSE /\ out' = Sink(out, HeadOf(Line(g, level, a, s)))          \* deviation C18/split-line
+          /\ pend' = [pend EXCEPT ![g] = <<TailOf(Line(g, level, a, s))>>]
+  /\ IF ~OwnStorage /\ s.k = "win" /\ HasPrefix(a) /\ s.n < Len(buf[s.b])
+     THEN buf' = [buf EXCEPT ![s.b] = Shifted(@, s.n)]             \* deviation C18/prefix-inserted-in-place
+     ELSE UNCHANGED buf                                            \* operands are only read
   /\ UNCHANGED idvars
 
 WriteTail(g) == /\ pend[g] # <<>>
                 /\ out' = Sink(out, pend[g][1])
                 /\ pend' = [pend EXCEPT ![g] = <<>>]
-                /\ UNCHANGED <<idvars, nlog>>
+                /\ UNCHANGED <<idvars, nlog, buf>>
 
-Log(g, level, a) == LogCall(g, level, a, level \in Routed)
+Log(g, level, a, s) == LogCall(g, level, a, s, level \in Routed)
 
 (* ---------------------------------- Next ---------------------------------- *)
 NumMade(g) == Len(ctxid[g])
 Fresh(g)   == Name(g, NumMade(g) + 1)
 Sources    == {CtxArg(c) : c \in Made} \cup {BgArg, NilArg}
+Srcs       == {Lit} \cup {Win(b, n) : b \in Bufs, n \in Wins}
 Args       == {a \in {CtxArg(c) : c \in Made} \cup {NilArg, BgArg} \cup {ObjArg(id) : id \in ObjIds} : a.k \in ArgKinds}
 
 Next == \E g \in Procs :
@@ -162,7 +204,7 @@ Next == \E g \in Procs :
              /\ \/ New(g, Fresh(g))
                 \/ \E s \in Sources : Alias(g, Fresh(g), s)
           \/ /\ nlog[g] < MaxLog
-             /\ \E l \in Levels, a \in Args : Log(g, l, a)
+             /\ \E l \in Levels, a \in Args, s \in Srcs : Log(g, l, a, s)
           \/ WriteTail(g)
 
 Spec == Init /\ [][Next]_vars
@@ -176,11 +218,19 @@ Unique == \A c1, c2 \in Made : (IsNew(c1) /\ IsNew(c2) /\ c1 # c2) => IdOf(c1) #
 \* an aliased context carries exactly its source's id
 AliasSame == \A c \in Made : OriginOf(c).how = "alias" => IdOf(c) = IdOf(Name(OriginOf(c).g, OriginOf(c).i))
 
-\* every write at the writer is one whole line, its cid the passed context's
+\* every write at the writer is one whole line, its cid the passed context's, its message made of
+\* the operands the application passed
 WholeLines == \A i \in 1..Len(out) :
                 /\ out[i].kind = "line"
                 /\ out[i].pfx = SpecPrefix(out[i].arg)
                 /\ out[i].level \in Routed
+                /\ out[i].ops = Meant(out[i].src)
+
+\* a logging call leaves the caller's operands - the whole backing array, not only the window it was
+\* given - as the application filled them.  This is what makes `one line with the right prefix and
+\* message` hold for the NEXT call with the same slice, and what makes read-only sharing of a slice
+\* between goroutines free of data races: nobody writes.
+OperandsUntouched == \A b \in DOMAIN buf : buf[b] = Pristine(Len(buf[b]))
 
 \* exactly one line per (routed) call: messages are unique per call, so no message twice
 \* and every line belongs to a call that was made
@@ -196,4 +246,5 @@ TypeOK == /\ next \in Nat /\ used \subseteq Nat
           /\ \A g \in AllProcs : Len(origin[g]) = Len(ctxid[g])
           /\ \A c \in Made : IdOf(c) \in Nat /\ IdOf(c) >= FirstId
           /\ \A g \in AllProcs : rd[g] \in Nat /\ nlog[g] \in Nat /\ Len(pend[g]) <= 1
+          /\ \A b \in DOMAIN buf : \A j \in 1..Len(buf[b]) : buf[b][j] \in 0..Len(buf[b])
 =============================================================================
